@@ -230,30 +230,39 @@ func Register(c *Check) { registry[c.ID] = c }
 // InBubble runs f inside a synctest bubble. A panic on the bubble's root
 // goroutine (including the end-of-bubble deadlock panic) is returned as text.
 func InBubble(t *testing.T, f func()) (panicText string) {
-	defer func() {
-		if r := recover(); r != nil {
-			buf := make([]byte, 1<<20)
-			n := runtime.Stack(buf, true)
-			// keep only the goroutines that belong to a bubble
-			var keep []string
-			for _, g := range strings.Split(string(buf[:n]), "\n\n") {
-				if strings.Contains(g, "synctest bubble") {
-					keep = append(keep, g)
-				}
-			}
-			panicText = fmt.Sprintf("%v\n%s", r, strings.Join(keep, "\n\n"))
-		}
-	}()
-	synctest.Test(t, func(t *testing.T) {
+	// synctest.Test calls t.FailNow() when the inner test was marked failed
+	// (which the race detector does on a report); FailNow ends the calling
+	// goroutine, so the bubble is entered from a goroutine of its own and the
+	// caller just waits for it.
+	done := make(chan struct{})
+	go func() {
+		defer close(done)
 		defer func() {
 			if r := recover(); r != nil {
-				buf := make([]byte, 1<<16)
-				n := runtime.Stack(buf, false)
-				panicText = fmt.Sprintf("%v\n%s", r, buf[:n])
+				buf := make([]byte, 1<<20)
+				n := runtime.Stack(buf, true)
+				// keep only the goroutines that belong to a bubble
+				var keep []string
+				for _, g := range strings.Split(string(buf[:n]), "\n\n") {
+					if strings.Contains(g, "synctest bubble") {
+						keep = append(keep, g)
+					}
+				}
+				panicText = fmt.Sprintf("%v\n%s", r, strings.Join(keep, "\n\n"))
 			}
 		}()
-		f()
-	})
+		synctest.Test(t, func(t *testing.T) {
+			defer func() {
+				if r := recover(); r != nil {
+					buf := make([]byte, 1<<16)
+					n := runtime.Stack(buf, false)
+					panicText = fmt.Sprintf("%v\n%s", r, buf[:n])
+				}
+			}()
+			f()
+		})
+	}()
+	<-done
 	return
 }
 
@@ -573,10 +582,21 @@ func TestSim(t *testing.T) {
 		if hit != nil {
 			cls := hit.Class()
 			sb := time.Duration(envInt("VERIF_SHRINK_S", 60)) * time.Second
-			min, n := shrink(t, c, plan, cls, sb)
-			sum.ShrinkRuns = n
-			fin := runOnce(t, c, min)
-			v := hasClass(fin, cls)
+			var min *Plan
+			var fin *Outcome
+			var v *Violation
+			if c.RaceMode {
+				// the race detector reports a given race once per process, so the
+				// plan can neither be re-run nor minimised here; the orchestrator
+				// replays it in fresh processes
+				min, fin, v = plan, out, hit
+			} else {
+				var n int
+				min, n = shrink(t, c, plan, cls, sb)
+				sum.ShrinkRuns = n
+				fin = runOnce(t, c, min)
+				v = hasClass(fin, cls)
+			}
 			if v == nil {
 				// could not re-establish on the minimised plan; fall back to the original
 				min = plan
